@@ -38,6 +38,24 @@ def cfg_fn(rng):
 WEIGHTS = {"ctrl": 0.8, "scenario": 0.6, "update_attrs": 0.2, "add_edge": 5, "delete_edge": 4, "delete_node": 4}
 
 
+def _lineage_off(gen, tracks):
+    return {"op": "features", "disable": [tracks.features.lineage_key]}
+
+
+def _lineage_on(gen, tracks):
+    return {"op": "features", "enable": [tracks.features.lineage_key], "recompute": True}
+
+
+def _tail(gen, tracks):
+    """Alternative ending: the lineage feature is switched off, the graph is edited (splits,
+    joins), the feature is switched on again with bulk recomputation, and editing goes on."""
+    return None
+
+
+TAIL_LINEAGE = [_lineage_off, _c06._edit, _c06._edit, _c06._edit, _lineage_on, _c06._edit,
+                _c06._edit]
+
+
 def plan(tier, seed):
     specs = common.session_plan(PROP, tier, seed, quick=7200, thorough=80000)
     specs.append({"kind": "construct", "n": 1500 if tier == "quick" else 20000,
@@ -50,7 +68,7 @@ def run_shard(spec):
         return construct_shard(spec, WHICH, PROP)
     return common.run_sessions(spec, PROP, make_monitors, cfg_fn, nsteps=(15, 35),
                                weights=WEIGHTS, refusal_rate=0.4, history_share=0.25,
-                               tail=_c06.TAIL, tail_share=0.3)
+                               tail=(TAIL_LINEAGE if spec["shard"] % 2 else _c06.TAIL), tail_share=0.3)
 
 
 def construct_shard(spec, which, prop):
